@@ -45,7 +45,7 @@ struct Gen {
     /// a fixed pair of field types that together mention every parameter (None: any field of `tys` does)
     pair: Option<(&'static str, &'static str)>,
 }
-const GENS: [Gen; 16] = [
+const GENS: [Gen; 17] = [
     Gen { name: "none", decl: "", wh: "", tys: &["i8", "(u8, bool)", "[u8; 2]"], pair: None },
     Gen { name: "T", decl: "<T>", wh: "", tys: &["T", "Option<T>", "Vec<T>", "Box<T>", "::core::marker::PhantomData<T>", "(T, u8)", "fn(T) -> T", "*const T", "[T; 2]", "::core::cell::Cell<T>"], pair: None },
     Gen { name: "T,U", decl: "<T, U>", wh: "", tys: &["(T, U)"], pair: Some(("T", "U")) },
@@ -62,6 +62,8 @@ const GENS: [Gen; 16] = [
     Gen { name: "inline bound with Self", decl: "<T: PartialEq<Vec<Self>>>", wh: "", tys: &["T", "Box<T>"], pair: None },
     Gen { name: "'a alone", decl: "<'a>", wh: "", tys: &["&'a i8"], pair: None },
     Gen { name: "where qualified Self", decl: "<T>", wh: "where Self: Tr, <Self as Tr>::Assoc: Marker", tys: &["T", "Option<T>"], pair: None },
+    // a field type that mentions `Self` next to a parameter (Tag<_> implements every trait / operator form for every argument)
+    Gen { name: "Self in field type", decl: "<T>", wh: "", tys: &["::dxrt::probe::Tag<(T, Self)>", "::dxrt::probe::Tag<(Option<T>, Box<Self>)>"], pair: None },
 ];
 
 /// 0 unit struct, 1 tuple1, 2 tuple2, 3 named1, 4 named2, 5 empty enum, 6 enum{A}, 7 enum{A(f)}, 8 enum{A{f}}, 9 enum{A, B(f,f), C{f}}
@@ -296,6 +298,70 @@ fn gen_misc(ch: &mut Ch, _thorough: bool) -> Option<Case> {
     Some(Case { gen: "misc", vector: ch.vector(), list: list.iter().map(|s| s.to_string()).collect(), item: item.to_string(), entry, desc: "fixed debug/default flavour".into() })
 }
 
+/// explicit `bound(..)` arguments whose predicates mention `Self` (always true: `Self: Sized`), at every
+/// kind of placement, for every trait list
+fn gen_selfbound(ch: &mut Ch, _thorough: bool) -> Option<Case> {
+    let li = ch.pick(LISTS.len());
+    let list = LISTS[li];
+    let ops = list.iter().any(|t| is_op(t));
+    let deref = list.iter().any(|t| t.starts_with("Deref"));
+    // 0 struct X<T>(T), 1 struct X<T> { f: Option<T>, g: T }, 2 enum X<T> { A, B(T), C { f: Option<T> } }
+    let shape = ch.pick(3);
+    if shape == 2 && (ops || deref) || shape == 1 && deref {
+        return None;
+    }
+    let pred = *ch.of(&["Self: Sized", "Self: Sized, ..", "Option<Self>: Sized, .."]);
+    // placement: 0 shared at type, 1 per-trait (first trait) at type, 2 helper attribute at type,
+    // 3 shared on the first field, 4 per-trait on the first field, 5 helper attribute on the first field,
+    // 6 shared on a variant
+    let place = ch.pick(7);
+    if place == 6 && shape != 2 || (deref && place >= 3) {
+        return None;
+    }
+    let helper = match list[0] {
+        "Debug" => Some("debug"),
+        "Default" => Some("default"),
+        "PartialEq" => Some("partial_eq"),
+        "Eq" => Some("eq"),
+        "PartialOrd" => Some("partial_ord"),
+        "Ord" => Some("ord"),
+        "Hash" => Some("hash"),
+        _ => None,
+    };
+    if matches!(place, 2 | 5) && helper.is_none() {
+        return None;
+    }
+    // a predicate list without `..` on a FIELD or VARIANT stops the default bound of that field: keep the impl well-typed
+    // by using a field type that needs no bound there (Option<Self>-style predicates never replace T's bound)
+    let stops = !pred.ends_with("..");
+    let mut l: Vec<String> = list.iter().map(|t| t.to_string()).collect();
+    let mut type_attr = String::new();
+    let mut field_attr = String::new();
+    let mut variant_attr = String::new();
+    let h = |a: &str| if a == "default" { format!("#[default(_, bound({pred}))]") } else { format!("#[{a}(bound({pred}))]") };
+    match place {
+        0 => l.push(format!("bound({pred})")),
+        1 => l[0] = format!("{}(bound({pred}))", list[0]),
+        2 => type_attr = h(helper.unwrap()),
+        3 => field_attr = format!("#[derive_ex(bound({pred}))]"),
+        4 => field_attr = format!("#[derive_ex({}(bound({pred})))]", list[0]),
+        5 => field_attr = h(helper.unwrap()),
+        _ => variant_attr = format!("#[derive_ex(bound({pred}))]"),
+    }
+    if stops {
+        // the generated impl needs `T: Trait`, which a stopping list removes: only explore the continuing forms
+        return None;
+    }
+    let d = if list.contains(&"Default") { "#[default] " } else { "" };
+    let item = match shape {
+        0 => format!("{type_attr} pub struct X<T>({field_attr} pub T);"),
+        1 => format!("{type_attr} pub struct X<T> {{ {field_attr} pub q0: Option<T>, pub c1: T }}"),
+        _ => format!("{type_attr} pub enum X<T> {{ A, {d}{variant_attr} B({field_attr} T), C {{ x2: Option<T> }} }}"),
+    };
+    let entry = *ch.of(&Entry::BOTH);
+    Some(Case { gen: "selfbound", vector: ch.vector(), list: l, item: item.trim().to_string(), entry, desc: format!("bound({pred}) at placement {place}") })
+}
+
 fn program(c: &Case) -> String {
     let list = c.list.join(", ");
     let head = match c.entry {
@@ -307,10 +373,10 @@ fn program(c: &Case) -> String {
 
 pub fn run(ctx: &Ctx, rep: &mut Report) {
     let thorough = ctx.tier.is_thorough();
-    rep.rule = "terminal state = (trait list x struct/enum shape incl. empty and single-variant enums x generics option [type/const/lifetime parameters, inline bounds, defaults, where-clauses incl. `Self`, hostile names H and 'a, ?Sized tail] x field type over the parameters x entry point) | (comparison list x shape x attribute flavour [by closure / by path / key / ignore / reverse] x position first/middle/last x generic field type) | fixed Debug/Default flavours; cases whose in-process expansion contains a compile_error! are set aside; the rest is compiled metadata-only with warnings on; distinct by program text; non-trivial = accepted by the expander and generic or attributed".into();
+    rep.rule = "terminal state = (trait list x struct/enum shape incl. empty and single-variant enums x generics option [type/const/lifetime parameters, inline bounds, defaults, where-clauses incl. `Self`, hostile names H and 'a, ?Sized tail] x field type over the parameters x entry point) | (comparison list x shape x attribute flavour [by closure / by path / key / ignore / reverse] x position first/middle/last x generic field type) | fixed Debug/Default flavours | (trait list x 3 shapes x explicit bound(..) whose predicates mention `Self` x 7 placements [shared / per-trait / helper attribute at type, field, variant]); cases whose in-process expansion contains a compile_error! are set aside; the rest is compiled metadata-only with warnings on; distinct by program text; non-trivial = accepted by the expander and generic or attributed".into();
     rep.assumptions = vec!["user-written pieces are well-typed by construction: field types either mention a type/const parameter (then covered by the generated bound) or implement every derived trait; closures / paths / keys are well-typed under the explicit bound(..) given".into(), "every error and every warning attributed to an accepted case counts (the scaffolding is warning-free by construction; unused imports are allowed crate-wide)".into()];
     let mut cases: Vec<Case> = Vec::new();
-    let gens: [(&str, fn(&mut Ch, bool) -> Option<Case>); 3] = [("struct", gen_struct), ("attrs", gen_attrs), ("misc", gen_misc)];
+    let gens: [(&str, fn(&mut Ch, bool) -> Option<Case>); 4] = [("struct", gen_struct), ("attrs", gen_attrs), ("misc", gen_misc), ("selfbound", gen_selfbound)];
     if let Some(p) = &ctx.replay {
         let v: serde_json::Value = serde_json::from_str(&std::fs::read_to_string(p).expect("replay file")).expect("replay json");
         let vec: Vec<usize> = v["case"]["vector"].as_array().unwrap().iter().map(|x| x.as_u64().unwrap() as usize).collect();
